@@ -24,13 +24,18 @@ MsgItems(items) == SelectSeq(items, LAMBDA it : it.k # "pend")      \* messages 
 \* frame is compressed, which this specification does not compute - the length `wl` the stimulus states for it (a bound that
 \* decides the comparison: incompressible data cannot shrink, a run of zeros shrinks below any limit used)
 WireLen(it) == IF "wl" \in DOMAIN it THEN it.wl ELSE Len(it.ser)
-FirstStop(mi, limit) == SelectInSeq(mi, LAMBDA it : it.k \in {"err", "encfail"} \/ (it.k = "msg" /\ WireLen(it) > limit))
+\* it.k = "huge": a message of more than 4 GiB (never materialised; `over` = it also exceeds the configured limit): it cannot be framed
+FirstStop(mi, limit) == SelectInSeq(mi, LAMBDA it : it.k \in {"err", "encfail", "huge"} \/ (it.k = "msg" /\ WireLen(it) > limit))
 Good(items, limit) == LET mi == MsgItems(items) f == FirstStop(mi, limit)
                       IN IF f = 0 THEN mi ELSE SubSeq(mi, 1, f - 1)
 \* final status code of the stream
 Final(items, limit) == LET mi == MsgItems(items) f == FirstStop(mi, limit)
                        IN IF f = 0 THEN OK ELSE IF mi[f].k = "err" THEN mi[f].code
-                          ELSE IF mi[f].k = "encfail" THEN INTERNAL ELSE OUT_OF_RANGE
+                          ELSE IF mi[f].k = "encfail" THEN INTERNAL
+                          ELSE IF mi[f].k = "huge" /\ ~mi[f].over THEN RESOURCE_EXHAUSTED ELSE OUT_OF_RANGE
+\* a message that is both over the configured limit and beyond 4 GiB: the statement names a code for each, either is accepted
+FinalSet(items, limit) == LET mi == MsgItems(items) f == FirstStop(mi, limit)
+                          IN IF f # 0 /\ mi[f].k = "huge" /\ mi[f].over THEN {OUT_OF_RANGE, RESOURCE_EXHAUSTED} ELSE {Final(items, limit)}
 \* identity wire of a sequence of message items
 WireOf(good, flag) == Concat([i \in 1..Len(good) |-> Frame(flag, good[i].ser)])
 
@@ -51,12 +56,12 @@ EncClauses(cfg, items, s, r) ==
          << <<"StatusOnce", s.tr = 0 /\ s.err = 0 /\ s.none = 0 /\ Len(r.status) = 1>>,
             <<"ClientHasNoTrailers", cfg.role = "server">>,
             <<"NoCollateralLoss", cfg.exact => s.emitted = full>>,
-            <<"TrueStatus", Len(r.status) = 1 => r.status[1] = DecDigits(fin)>> >>
+            <<"TrueStatus", Len(r.status) = 1 => r.status[1] \in { DecDigits(c) : c \in FinalSet(items, cfg.limit) }>> >>
        [] r.r = "err" ->
          << <<"ServerReportsInTrailers", cfg.role = "client">>,
             <<"StatusOnce", s.err = 0 /\ s.none = 0>>,
             <<"NoCollateralLoss", cfg.exact => s.emitted = full>>,
-            <<"TrueStatus", fin # OK /\ r.st.code = fin>> >>
+            <<"TrueStatus", fin # OK /\ r.st.code \in FinalSet(items, cfg.limit)>> >>
        [] r.r = "none" ->
          << <<"StatusBeforeEnd", IF cfg.role = "server" THEN s.tr = 1 ELSE (s.err = 1 \/ fin = OK)>>,
             <<"NoCollateralLoss", (cfg.exact /\ s.none = 0) => s.emitted = full>> >>
